@@ -681,7 +681,7 @@ def _texts(rng, n, prop="C15"):
                                ("half an hour", "30 m"), ("a week", "7 tage"),
                                ("%d nächte" % nn, "%d tage" % nn), ("1 hour", "60 minutes")])
             t = "%s %s" % ((a, b) if rng.random() < 0.5 else (b, a))
-        elif r < 0.866:
+        elif r < 0.872:
             # a group of ambiguous tokens (dozens of candidate sequences), a word nothing matches,
             # then an expression with longer coverage - and the other way round
             g = " ".join(rng.choice(["1", "2", "3", "5", "8"]) for _ in range(rng.choice([3, 3, 4])))
@@ -754,6 +754,8 @@ def plan(prop, tier, seed):
                 runs.append({"sched": s, "depth": 0})
             for s in rng.sample(scheds, 3 if quick else 6):
                 runs.append({"sched": s, "depth": rng.choice([1, 2, 3, 10])})
+            # (the tightest limit always once: whatever is streamed must still be derivable)
+            runs.append({"sched": {"mode": "constant"}, "depth": 1})
             for s in rng.sample(scheds, 2 if quick else 4):
                 runs.append({"sched": s, "depth": 0, "skip_prefilter": True})
             # the default configuration anchors bare clock times after scoring
